@@ -16,6 +16,11 @@ CHECKS = {
    technique=TECH+"trie of all strings over an alphabet up to a length bound, oracle = identity",
    ref="3.17"),
 
+ "C03": dict(
+   text="Every string over a 22-symbol escape-relevant alphabet up to length 4 (quick) / 5 (thorough), every Unicode scalar as char, all byte strings up to length 2 (+ every byte in a frame) x {MySQL, Postgres, SQLite} x 40 inlining positions (query values, constants, ORDER BY FIELD, LIKE pattern / ESCAPE char, IN lists, INSERT/UPDATE values, DEFAULT, JSON, array elements, MySQL COMMENT and ENUM labels, PG CREATE/ALTER TYPE labels). Oracle: differential against a benign marker under the dialect's reference lexer (same token skeleton, one literal token in the slot, decoded content == value); on SQLite the real engine decodes the literal as well (SELECT / DEFAULT read back).",
+   note="Trusted: MySQL and PostgreSQL lexical rules transcribed from the manuals (no engine offline; default sql_mode, standard_conforming_strings=on); the SQLite lexer is validated against the engine on every run. Three genuine defects were repaired by fix: commits (see known_findings.json).",
+   technique=TECH+"trie of all strings over an alphabet up to a length bound x positions, oracle = reference lexers + real SQLite engine",
+   ref="3.3"),
  "C10": dict(
    text="Explicit-state BFS over ALL histories of a 27-operation INSERT alphabet (columns / values / values_panic / values_from_panic / select_from / or_default_values*, column counts 0..3, row lengths 0..4) up to depth 6 (quick) / 8 (thorough) on the real InsertStatement, in lock-step with a plain-list reference model. Per step: Result / panic vs the contract, error counts, statement unchanged after a rejection. Per state: rendering on 3 backends x {to_string, build} parsed back by an independent parser and compared with the model (rectangularity, call order, default-values form).",
    note="Trusted: the reference model of the documented contract (lists), the reference lexer and the 150-line INSERT parser. One genuine defect is a known finding (columns() after a source was accepted).",
